@@ -36,9 +36,13 @@ func c13(c *Ctx) {
 	var quotaClosures []*ssa.Function
 	c.Ob("quota-confinement", "R4", "quota, waiter count, limit and wake-up channel are accessed only in the constructor and in closures of NewStream/closeStream/handleSettings that reach the locked executor (passed to it directly, or invoked only from a closure passed to it); the enclosing functions never invoke them directly", 3, func() {
 		allowedParents := map[string]bool{"internal/transport.http2Client.NewStream": true, "internal/transport.http2Client.closeStream": true, "internal/transport.http2Client.handleSettings": true}
+		ww := wakeWrappers(c, tr, fAvail)
 		for _, f := range c.scope(tr) {
 			if !touches(f) {
 				continue
+			}
+			if ww[f] {
+				continue // a wake-up wrapper: judged by who calls it (below)
 			}
 			c.inst("quota state accessed in " + shortName(f))
 			if f.Parent() == nil {
@@ -95,6 +99,23 @@ func c13(c *Ctx) {
 				}
 			}
 			c.Expect(len(closuresPassedTo(parent, exec, 1)) >= 1, nil, parent, "parent-uses-locked-executor", "the enclosing function never hands a closure to the locked executor")
+		}
+		isQC := map[*ssa.Function]bool{}
+		for _, f := range quotaClosures {
+			isQC[f] = true
+		}
+		for _, f := range c.scope(tr) {
+			for _, b := range f.Blocks {
+				for _, in := range b.Instrs {
+					if ci, ok := in.(ssa.CallInstruction); ok {
+						if g := ci.Common().StaticCallee(); g != nil && ww[g] {
+							c.inst("wake-up wrapper called in " + shortName(f))
+							_, plain := in.(*ssa.Call)
+							c.Expect(plain && isQC[f], in, f, "wake-wrapper-called-outside-closure", "the stream-quota wake-up wrapper is called outside the control buffer's critical section")
+						}
+					}
+				}
+			}
 		}
 		c.Expect(len(quotaClosures) == 3, nil, nil, "three-quota-closures", "expected exactly three closures touching the quota state (admission, give-back, limit update)")
 	})
@@ -251,8 +272,12 @@ func c13(c *Ctx) {
 		c.Expect(len(callsIn(f, exec)) == 1, nil, f, "one-give-back", "expected one executeAndPut in closeStream")
 	})
 	c.Ob("wake", "R3", "every closure that can raise the quota wakes waiters: non-blocking send when quota > 0 and waiters exist (admission, give-back), or close-and-replace of the wake-up channel when the limit grew and waiters exist (limit update)", 3, func() {
+		ww := wakeWrappers(c, tr, fAvail)
 		for _, f := range quotaClosures {
 			sends := instrsWhere(f, func(in ssa.Instruction) bool {
+				if isWakeCall(ww, in) {
+					return true
+				}
 				s, ok := in.(*ssa.Select)
 				return ok && len(s.States) == 1 && s.States[0].Dir == types.SendOnly && FieldLoad(fAvail)(s.States[0].Chan)
 			})
@@ -262,7 +287,8 @@ func c13(c *Ctx) {
 			})
 			c.Expect(len(sends)+len(closes) == 1, nil, f, "one-wake-up", "a quota closure has no (or more than one) wake-up of waiting streams")
 			for _, s := range sends {
-				c.Expect(!s.(*ssa.Select).Blocking, s, f, "wake-non-blocking", "the wake-up send can block inside the critical section")
+				sel, isSel := s.(*ssa.Select)
+				c.Expect(!isSel || !sel.Blocking, s, f, "wake-non-blocking", "the wake-up send can block inside the critical section")
 				c.MustFact(s, "wake-if-quota-positive", CmpInt(FieldLoad(fQuota), token.GTR, 0))
 				c.MustFact(s, "wake-if-waiters", CmpInt(FieldLoad(fWait), token.GTR, 0))
 				// not skipped when both hold: from the quota write to return, passing the send unless quota<=0 or no waiters
@@ -288,4 +314,43 @@ func c13(c *Ctx) {
 			}
 		}
 	})
+}
+
+// wakeWrappers: named functions of the package whose whole effect is one non-blocking token send on the wake-up
+// channel field av, executed on every call (the select sits in the entry block; no stores, no calls, no closures).
+// A call to such a function is the wake-up itself, wherever a rule looks for one.
+func wakeWrappers(c *Ctx, pkg string, av *types.Var) map[*ssa.Function]bool {
+	out := map[*ssa.Function]bool{}
+	for _, f := range c.scope(pkg) {
+		if f.Parent() != nil || len(f.AnonFuncs) > 0 || len(f.Blocks) == 0 {
+			continue
+		}
+		nSel, ok := 0, true
+		for _, b := range f.Blocks {
+			for _, in := range b.Instrs {
+				switch x := in.(type) {
+				case *ssa.Select:
+					nSel++
+					if x.Blocking || len(x.States) != 1 || x.States[0].Dir != types.SendOnly || !FieldLoad(av)(x.States[0].Chan) || b != f.Blocks[0] {
+						ok = false
+					}
+				case *ssa.Store, *ssa.Call, *ssa.Go, *ssa.Defer, *ssa.Send, *ssa.MapUpdate, *ssa.Panic:
+					ok = false
+				}
+			}
+		}
+		if ok && nSel == 1 {
+			out[f] = true
+		}
+	}
+	return out
+}
+
+func isWakeCall(ww map[*ssa.Function]bool, in ssa.Instruction) bool {
+	call, ok := in.(*ssa.Call)
+	if !ok {
+		return false
+	}
+	g := call.Call.StaticCallee()
+	return g != nil && ww[g]
 }
